@@ -51,6 +51,14 @@ def norm_in(nw, known):
     return False
 
 
+def norm_prefix_in(nw, known):
+    """some listed input is a prefix of nw (used where every extension of a failing prefix fails too: consume_input=False)"""
+    for k in known:
+        if len(k) <= len(nw) and all(a == b for a, b in zip(nw, k)):
+            return True
+    return False
+
+
 def excluded_inputs(pid, gshort):
     """Normalised inputs listed as known findings of `pid` for the grammar with this short text."""
     p = os.path.join(VERIF, "known_findings.json")
